@@ -940,9 +940,8 @@ class C17(ModelCheck):
         "thorough; all children of a parent of an allow-listed name) + a fixed submodule list + near-misses of every "
         "allow-listed name (prefix, suffix, truncation, case change, parent, child, sibling, re-rooted) + the allow-listed "
         "names themselves x forms {import N; import N as x; from N import a; from N import a as x; from N import *; import "
-        "N.child; import N, M; import M, N} x placements {script text, exec(text)} for every name, and additionally "
-        "{eval(\"exec(text)\"), function body, class body, try/except ImportError} for every allow-listed or related name and "
-        "(quick) a content-hashed three quarters of the others, (thorough) all. Oracle per elementary step: from-import below 'stubs' -> ignored (with alias: "
+        "N.child; import N, M; import M, N} x placements {script text, exec(text), eval(\"exec(text)\"), function body, class body, "
+        "try/except ImportError}. Oracle per elementary step: from-import below 'stubs' -> ignored (with alias: "
         "ModuleNotFoundError as coded); name resolves to a file under pyscript/modules (or pyscript/apps for an app "
         "context) -> the pyscript module (its marker variable); not allow_all and name not in ALLOWED_IMPORTS -> "
         "ModuleNotFoundError (an ImportError catchable in the script), no name bound beyond earlier steps, no new "
@@ -985,11 +984,8 @@ class C17(ModelCheck):
         for n in names:
             is_allowed = n in allowed()
             attr = pick_attr(n) if is_allowed else "zz_attr"
-            # every name x every form as script text and as exec() text; the other placements for every allow-listed
-            # or related name and (quick tier) three content-hashed quarters of the remaining names
-            all_modes = tier == "thorough" or is_allowed or related(n) or int(core.h(n), 16) % 4 != 3
             for form in FORMS:
-                for mode in MODES if all_modes else MODES[:2]:
+                for mode in MODES:
                     if form == "from_star" and mode in ("func", "class"):
                         continue  # SyntaxError in CPython inside a function; class body: not comparable
                     c = {"kind": "import", "allow_all": False, "cfg": "plain", "name": n, "form": form, "mode": mode, "attr": attr}
